@@ -159,6 +159,25 @@ def eqMirror : Bitmap → Bitmap → Bool
   | a :: as, b :: bs => a.key == b.key && Store.eqMirror a.store b.store && eqMirror as bs
   | _, _ => false
 
+/-! ## cmp.rs: `Pairs` as the state machine it is -/
+
+/-- cmp.rs:140-151 one call of `Pairs::next` on the two remaining (peekable) sequences: the item and the new state.
+    `Bitmap.pairs` (Cmp.lean) is the list of items repeated calls yield (`pairs_unfold`). -/
+def pairsNext : List Container × List Container →
+    Option ((Option Container × Option Container) × (List Container × List Container))
+  | ([], []) => none                                                  -- (None, None) => None
+  | (l :: ls, []) => some ((some l, none), (ls, []))                  -- (Some(_), None) => Some((self.left.next(), None))
+  | ([], r :: rs) => some ((none, some r), ([], rs))                  -- (None, Some(_)) => Some((None, self.right.next()))
+  | (l :: ls, r :: rs) =>                                             -- c1.key.cmp(&c2.key)
+    if l.key = r.key then some ((some l, some r), (ls, rs))           -- Equal
+    else if l.key < r.key then some ((some l, none), (ls, r :: rs))   -- Less
+    else some ((none, some r), (l :: ls, rs))                         -- Greater
+
+/-! ## inherent.rs: `full()` (never executed by the driver: 2^32 elements; theorems only) -/
+
+/-- inherent.rs:35-37 `RoaringBitmap::full()`: `(0..=u16::MAX).map(Container::full).collect()` -/
+def full : Bitmap := (List.range 65536).map Container.full
+
 /-! ## cmp.rs: early exits -/
 
 /-- cmp.rs:58-69 the `for pair in Pairs` loop of `is_subset` with its two `return false` -/
